@@ -239,6 +239,9 @@ func gen(rng *rand.Rand, tier core.Tier, emit core.Emit) {
 			emit(op, k, core.Hex(BrowserRequest(rng, "gametype='CO-OP'", []string{"hostname", "numplayers", "bogus"}, []byte{0, 0, 0, 1})))
 		}
 	}
+	// a reply far larger than the socket buffers to a client that does not read
+	emit("cstall", "300", "4000")
+	emit("cstallhttp", "1500", "4000")
 	// the real browser component: valid, malformed and silent clients
 	for _, k := range []string{"0", "2"} {
 		emit("ctcp", k, "none")
@@ -334,6 +337,10 @@ func exec(op string, args []string) []string {
 			out = runTCP(args, "6")
 		case "encpar":
 			out = runEncPar(args)
+		case "cstallhttp": // the same on the REST port, through the real API component
+			out = runStallHTTP(args)
+		case "cstall": // a client that requests a long list and does not read it
+			out = runStall(args)
 		case "ctcp": // through the real browser component (fx module, tcpserver with the client timeout)
 			out = runComponentTCP(args)
 		case "udpsrv":
